@@ -92,11 +92,27 @@ func partialFuncs(c *core.Choices, inner ociregistry.Interface) ociregistry.Inte
 	if on("PushBlob") {
 		f.PushBlob_ = inner.PushBlob
 	}
+	// upload ids are opaque to the server: a backend may hand out any string
+	oddID := ""
+	useOddID := c.Bool("funcs.odd-upload-id", 1, 3)
+	if useOddID {
+		oddID = []string{"", "\xff\xfe\x00", "id?with=query&x", "id with spaces/and/slashes", "../..", strings.Repeat("x", 3000)}[c.Int("funcs.odd-upload-id.which", 6)]
+	}
+	odd := func(w ociregistry.BlobWriter, err error) (ociregistry.BlobWriter, error) {
+		if err != nil || !useOddID {
+			return w, err
+		}
+		return oddIDWriter{w, oddID}, nil
+	}
 	if on("PushBlobChunked") {
-		f.PushBlobChunked_ = inner.PushBlobChunked
+		f.PushBlobChunked_ = func(ctx context.Context, repo string, chunkSize int) (ociregistry.BlobWriter, error) {
+			return odd(inner.PushBlobChunked(ctx, repo, chunkSize))
+		}
 	}
 	if on("PushBlobChunkedResume") {
-		f.PushBlobChunkedResume_ = inner.PushBlobChunkedResume
+		f.PushBlobChunkedResume_ = func(ctx context.Context, repo, id string, offset int64, chunkSize int) (ociregistry.BlobWriter, error) {
+			return odd(inner.PushBlobChunkedResume(ctx, repo, id, offset, chunkSize))
+		}
 	}
 	if on("MountBlob") {
 		f.MountBlob_ = inner.MountBlob
@@ -177,6 +193,11 @@ func c06(env *core.Env, mode string) {
 				case 1:
 					return fmt.Errorf("wrapped: %w", stdErrs[c.Int("backend.std", len(stdErrs))])
 				case 2:
+					if c.Bool("backend.status.odd", 1, 6) {
+						// a status that is no failure status at all (what a client-backed
+						// backend reports when its upstream answers oddly)
+						return ociregistry.NewHTTPError(fmt.Errorf("odd upstream"), []int{0, 99, 100, 200, 204, 304, 399, 600, 999, 1000, -1}[c.Int("backend.status.oddv", 11)], nil, nil)
+					}
 					return ociregistry.NewHTTPError(fmt.Errorf("teapot"), 400+c.Int("backend.status", 200), nil, nil)
 				}
 				return fmt.Errorf("plain backend failure")
@@ -587,3 +608,11 @@ func c06(env *core.Env, mode string) {
 		}
 	}
 }
+
+// oddIDWriter is a BlobWriter whose upload id is whatever the backend likes.
+type oddIDWriter struct {
+	ociregistry.BlobWriter
+	id string
+}
+
+func (w oddIDWriter) ID() string { return w.id }
